@@ -34,6 +34,13 @@ def tcp_scripts():
         if reload_between:
             procs.append({"name": "r", "ops": [{"after": "b.send.1", "do": "reload", "kind": "ok"}]})
         out.append({"id": "socket-reuse-%s" % reload_between, "seed": 1, "tcp": True, "procs": procs, "holds": [{"gate": "tcp.conn.aborted", "nth": 1, "until": "b.send.1"}]})
+    # a client goes away while a reload holds the write lock (its last flush and close wait for the lock) and another client
+    # connects at once: the socket number must not be handed out again before the old sink is closed
+    for hold_ms in (40, 90):
+        procs = [{"name": "a", "ops": [{"at": 0, "do": "connect"}, {"at": 0, "do": "send", "stamp": 1}, {"after": "GateHeld", "do": "disconnect"}]},
+                 {"name": "b", "ops": [{"after": "a.disconnect.0", "do": "connect"}, {"at": 0, "do": "send", "stamp": 1}, {"after": "ReloadEnd", "do": "send", "stamp": 2}, {"at": 0, "do": "disconnect"}]},
+                 {"name": "r", "ops": [{"after": "a.send.1", "do": "reload", "kind": "ok"}]}]
+        out.append({"id": "disconnect-during-reload-%d" % hold_ms, "seed": 1, "tcp": True, "procs": procs, "holds": [{"gate": "rl.reload.locked", "nth": 1, "sleepMs": hold_ms}]})
     return out
 
 
